@@ -32,6 +32,10 @@ struct Effect {            // contract effect
   int64_t off = 0;         // constant byte offset added to the pointer argument
   std::string prov;        // provenance of written bytes
   int64_t retlo = 0, rethi = 0;
+  int lenptr = -1;         // length = the size_t stored at this pointer argument when the call is made (upper bound)
+  int hiarg = -1;          // retptr: upper offset bound = value of this integer argument
+  bool mayNull = false;    // retptr: NULL is a possible result
+  int64_t maxlen = -1;     // lenptr: the contract was verified up to this length only (precondition)
 };
 
 struct Config {
